@@ -632,8 +632,8 @@ pub fn exec(dev: &mut Device, x: &DispatchSpec, log: &mut Log) -> Option<Finding
 pub fn plan(tier: &str) -> u64 {
     match tier {
         "thorough" => 40_000,
-        "selfcheck" => 60,
-        _ => 400,
+        "selfcheck" => 20_000,
+        _ => 1_000,
     }
 }
 
@@ -727,8 +727,8 @@ pub fn gen(seed: u64, run: u64, _tier: &str) -> Vec<Step> {
             let n = *rng.pick(&[64usize, 200, 600, 2000]);
             let mut e = rng.bytes(n);
             if rng.coin() {
-                // small leading bytes steer the derived enum choice across all variants
-                e[0] = rng.below(10) as u8 * 26;
+                // the derived enum choice is (u32 little-endian * 10) >> 32: steer its top byte across all variants
+                e[3] = rng.below(10) as u8 * 26 + 5;
             }
             let src = if rng.chance(1, 4) { 11 } else { 12 };
             specs.push(DispatchSpec { source: src, bytes: e, script: rng.below(7) as u8, large_blobs: rng.coin(), desc: format!("request generated from {} bytes of entropy", n) });
